@@ -10,7 +10,7 @@ package fasthttp
 //@   property C13 C14 C10
 //@   mode skeleton
 //@   nooverflow
-//@   stable wp.workersCount
+//@   ghost delta_workersCount int = 0
 //@   ghost servedNow int = 0
 //@   ghost closedNow int = 0
 //@   ghost reportedNow int = 0
@@ -34,4 +34,34 @@ package fasthttp
 //@     iter servedNow = 0; closedNow = 0; reportedNow = 0; lastState = -1; hijNow = false
 //@     atend[released-after-serving] @C13 released == 1
 //@     iter released = 0
-//@   ensures[worker-count-decremented-once] @C13 wp.workersCount == old(wp.workersCount) - 1
+//@   ensures[worker-count-decremented-once] @C13 delta_workersCount == -1
+
+// The worker pool's lock: workersCount, ready and mustStop are only written with wp.lock held, and whenever the
+// lock is free the number of workers accounted for is within the configured bound. A worker goroutine is only
+// started by getCh after it has been counted (see getCh below), so at most MaxWorkersCount workers exist.
+//@ monitor workerPool lock
+//@   property C13
+//@   protects workersCount ready mustStop
+//@   stable MaxWorkersCount
+//@   inv[worker-bound] M.workersCount <= M.MaxWorkersCount
+
+// getCh: a new worker goroutine is started only when this call counted it (createWorker), a ready worker is handed
+// out only after it was taken off the ready list, and nil is returned only when the pool is at its bound.
+//@ func workerPool.getCh results r
+//@   property C13
+//@   mode skeleton
+//@   nooverflow
+//@   stable wp.MaxWorkersCount
+//@   ghost started int = 0
+//@   ghost delta_workersCount int = 0
+//@   on go funclit:
+//@     requires[worker-was-counted] createWorker
+//@     effect started = started + 1
+//@   end
+//@   ensures[at-most-one-worker-started] started <= 1
+//@   ensures[counted-iff-created] delta_workersCount == (createWorker ? 1 : 0)
+//@   ensures[started-only-if-counted] started <= delta_workersCount
+
+//@ func workerPool.getMaxIdleWorkerDuration
+//@   trusted
+//@   pure
